@@ -118,6 +118,14 @@ func (g *Gen) FnLine(pool []string, verb, db, coll string, carrier string) *FnCa
 		if g.chance(0.5) {
 			p.Vals = append(p.Vals, ObjN("$group", ObjN("_id", ref(n[2]), "total", ObjN("$sum", ref(n[0])))))
 		}
+		if g.chance(0.4) {
+			// the same fields reached through a variable: "$$ROOT.f" / "$$CURRENT.f" are other spellings of "$f",
+			// "$$this.f" is the usual way to name a member inside $map / $filter — as a direct value and inside arrays
+			vref := func(v, name string) *Node { return StrN("$$" + v + "." + name).With(&Tag{Role: Ref}) }
+			p.Vals = append(p.Vals, ObjN("$addFields", ObjN("outv", vref("ROOT", n[0]), "outw", ObjN("$concat", ArrN(vref("CURRENT", n[1]), l("expr"))),
+				"outm", ObjN("$map", ObjN("input", ref(n[3]), "as", FreeS("it"), "in", ObjN("$toUpper", vref("it", n[2])))))),
+				ObjN("$group", ObjN("_id", vref("ROOT", n[1]), "cnt", ObjN("$sum", vref("CURRENT", n[0])))))
+		}
 		cmd = ObjN("aggregate", collN(coll), "pipeline", p, "cursor", keep(ObjN()))
 		clauses = [][]string{{n[0], n[1]}}
 	case "wupdate":
